@@ -59,6 +59,7 @@ type Interp struct {
 	fuel      int64
 	cur       *Coroutine
 	main      *Coroutine
+	done      chan struct{} // closed when the run is over
 	mainProt  []protMark
 	cos       []*Coroutine
 	labels    map[*lg.Block]map[string]int
